@@ -753,6 +753,10 @@ func (ro *RedisOutput) parseAofCommand(replayQuit usync.WaitCloser, reader *bufi
 		bypass    = false
 		newArgv   [][]byte
 		reject    bool
+		// where the source switched into the configured-out database it is in (bypass), and where
+		// the previous command ended
+		bypassedFrom int64
+		prevEnd      = startOffset
 	)
 	defer ro.logger.Infof("command parser is stopped")
 
@@ -784,6 +788,8 @@ func (ro *RedisOutput) parseAofCommand(replayQuit usync.WaitCloser, reader *bufi
 			}
 			return errors.Join(ErrCorrupted, err)
 		}
+		cmdStart := prevEnd
+		prevEnd = startOffset + incrOffset
 
 		sCmd, argv, err := client.ParseArgs(resp) // lower case
 		if err != nil {
@@ -807,7 +813,11 @@ func (ro *RedisOutput) parseAofCommand(replayQuit usync.WaitCloser, reader *bufi
 					ro.logger.Errorf("%s", err.Error())
 					return err
 				}
+				wasBypass := bypass
 				bypass = ro.outFilter.FilterDb(n) // filter following commands
+				if bypass && !wasBypass {
+					bypassedFrom = cmdStart
+				}
 				selectDB = n
 			} else if ro.outFilter.FilterCmd(sCmd) {
 				ignoreCmd = true
@@ -855,6 +865,12 @@ func (ro *RedisOutput) parseAofCommand(replayQuit usync.WaitCloser, reader *bufi
 			Args:   data,
 			Offset: startOffset + incrOffset,
 			Db:     currentDB,
+		}
+		if bypass {
+			// a transaction bracket inside a configured-out database : its position
+			// is no resume point, a restart has to read the database switch again to know that
+			// what follows is configured out
+			cmdExec.Offset = bypassedFrom
 		}
 		if len(syncDelayTestkey) > 0 {
 			if sCmd == "set" && len(argv) > 1 {
